@@ -401,10 +401,10 @@ class Gen:
         if c == 23:  # unexported field in dig.Out
             return self.new_fn([], [self.st([self.out_field(), self.field("A", u(ty)), self.field("hidden", u(r.choice(PT)), x=False)])])
         if c == 30:  # an array-typed dependency nobody provides (missing-type suggestions are computed for it)
-            return self.new_fn([u(r.choice([80, 81, 81]))] + ([u(ty)] if r.random() < 0.5 else []), [u(r.choice(PT))])
+            return self.new_fn([u(r.choice([80, 81, 81, 86]))] + ([u(ty)] if r.random() < 0.5 else []), [u(r.choice(PT))])
         if c == 31:  # ... as an optional / named field of a parameter object
             tg = r.choice([{}, {"optional": "true"}, {"name": "n1"}])
-            return self.new_fn([self.st([self.in_field(), self.field("A", u(r.choice([80, 81])), tg)])], [u(r.choice(PT))])
+            return self.new_fn([self.st([self.in_field(), self.field("A", u(r.choice([80, 81, 86])), tg)])], [u(r.choice(PT))])
         if c == 32:  # an array-typed result (never Huge: fmt would print 2^61 elements in Scope.String)
             return self.new_fn([], [u(80)] + ([u(0)] if r.random() < 0.5 else []))
         if c == 24:  # a plain struct (no In/Out) as parameter and as result
@@ -542,7 +542,7 @@ class Gen:
             # dig.LocationForPC: the constructor is reported under another function's location
             cands = [f["id"] for f in self.fns if "nonfunc" not in f]
             if cands:
-                op["loc"] = r.choice(cands)
+                op["loc"] = r.choice(cands) if r.random() < 0.85 else 0     # 0: an address that belongs to no function
                 op["opts"] = sorted(set(op["opts"]) | {"loc"})
         self.ops.append(op)
         self.record_results(scope, outs, opts, export, deps_ok=self._deps_ok and "nonfunc" not in self.fns[fid - 1])
@@ -1030,6 +1030,7 @@ class Gen:
             return
         t = r.choice([82, 83, 84, 85, 85, 71])
         if c == 1:
+            t = r.choice([t, t, 86, 81])      # the huge array types occur as missing parameters only
             # asked for, provided nowhere
             ins = r.choice([[u(t)], [self.st([self.in_field(), self.field("A", u(t))])],
                             [self.st([self.in_field(), self.field("A", u(t), {"optional": "true"})])]])
